@@ -65,8 +65,13 @@ func stmtHeader(fset *token.FileSet, s ast.Stmt) string {
 }
 
 func stmtLabel(fset *token.FileSet, s ast.Stmt) string {
+	if _, ok := s.(*ast.GoStmt); ok {
+		return "go"
+	}
 	h := stmtHeader(fset, s)
 	switch {
+	case strings.Contains(h, ".SetCtx("):
+		return "setctx"
 	case strings.Contains(h, ".state.CompareAndSwap("):
 		return "cas"
 	case strings.Contains(h, ".state.Load("):
@@ -77,19 +82,95 @@ func stmtLabel(fset *token.FileSet, s ast.Stmt) string {
 	return "stmt"
 }
 
-func findTunnelClose(f *ast.File) *ast.FuncDecl {
+func findMethod(f *ast.File, recv, name string) *ast.FuncDecl {
 	for _, d := range f.Decls {
 		fd, ok := d.(*ast.FuncDecl)
-		if !ok || fd.Name.Name != "Close" || fd.Recv == nil || len(fd.Recv.List) != 1 {
+		if !ok || fd.Name.Name != name || fd.Recv == nil || len(fd.Recv.List) != 1 || fd.Body == nil {
 			continue
 		}
 		if st, ok := fd.Recv.List[0].Type.(*ast.StarExpr); ok {
-			if id, ok := st.X.(*ast.Ident); ok && id.Name == "Tunnel" {
+			if id, ok := st.X.(*ast.Ident); ok && id.Name == recv {
 				return fd
 			}
 		}
 	}
 	return nil
+}
+
+func findTunnelClose(f *ast.File) *ast.FuncDecl { return findMethod(f, "Tunnel", "Close") }
+
+// tunnelStartShape: order of the two latch-relevant statements of (*Tunnel).Start (top-level statements only):
+// the context is created (SetCtx) before the Connecting->Connected CompareAndSwap, or after it.
+func tunnelStartShape() (found, setCtxFirst bool, spawns int) {
+	fset := token.NewFileSet()
+	f, err := parser.ParseFile(fset, filepath.Join(repoRoot(), "internal/client/tunnel/tunnel.go"), nil, 0)
+	if err != nil {
+		return
+	}
+	fd := findMethod(f, "Tunnel", "Start")
+	if fd == nil {
+		return
+	}
+	iSet, iCas := -1, -1
+	for i, s := range fd.Body.List {
+		switch stmtLabel(fset, s) {
+		case "setctx":
+			if iSet < 0 {
+				iSet = i
+			}
+		case "cas":
+			if iCas < 0 {
+				iCas = i
+			}
+		case "go":
+			spawns++
+		}
+	}
+	return iSet >= 0 && iCas >= 0, iSet < iCas, spawns
+}
+
+// sourceWriterShape: does (*dynamicSourceWriter).Write still hold sourceConnMu.RLock when it calls the forwarder's
+// Write (a deferred RUnlock, or no RUnlock statement before the Write call)?
+func sourceWriterShape() (found, holdsAcrossWrite bool) {
+	fset := token.NewFileSet()
+	f, err := parser.ParseFile(fset, filepath.Join(repoRoot(), "internal/protocol/session/tunnel/bridge_forward.go"), nil, 0)
+	if err != nil {
+		return
+	}
+	fd := findMethod(f, "dynamicSourceWriter", "Write")
+	if fd == nil {
+		return
+	}
+	locked, seenWrite := false, false
+	var walk func(b *ast.BlockStmt)
+	walk = func(b *ast.BlockStmt) {
+		for _, s := range b.List {
+			if seenWrite {
+				return
+			}
+			txt := nodeText(fset, s)
+			switch x := s.(type) {
+			case *ast.DeferStmt:
+				continue // a deferred RUnlock releases only at return: the lock stays held
+			case *ast.IfStmt:
+				walk(x.Body)
+				continue
+			}
+			if strings.Contains(txt, "sourceConnMu.RLock()") {
+				locked = true
+			}
+			if strings.Contains(txt, "sourceConnMu.RUnlock()") {
+				locked = false
+			}
+			if strings.Contains(txt, ".Write(") {
+				seenWrite = true
+				found = true
+				holdsAcrossWrite = locked
+			}
+		}
+	}
+	walk(fd.Body)
+	return
 }
 
 // shape of the latch in Tunnel.Close: is the CompareAndSwap retried in a loop? is there a Store(Closing) fallback
@@ -211,11 +292,18 @@ func gen() {
 	fmt.Println("(* StreamProcessor.onClose: syntax tree (assigns nil to ps.reader / ps.writer) and behaviour (GetReader()/GetWriter() nil after Close) *)")
 	fmt.Printf("Definition StreamOnCloseFound : bool := %s.\nDefinition StreamOnCloseAssignsNilReader : bool := %s.\nDefinition StreamOnCloseAssignsNilWriter : bool := %s.\n", coqBool(fnd), coqBool(nr), coqBool(nw))
 	fmt.Printf("Definition StreamCloseNilsReader : bool := %s.\nDefinition StreamCloseNilsWriter : bool := %s.\n", coqBool(br), coqBool(bw))
+	sf, sfirst, spawns := tunnelStartShape()
+	fmt.Println("(* (*Tunnel).Start: SetCtx precedes the Connecting->Connected CompareAndSwap; number of go statements *)")
+	fmt.Printf("Definition TunnelStartShapeFound : bool := %s.\nDefinition TunnelStartSetCtxBeforeCas : bool := %s.\nDefinition TunnelStartSpawns : nat := %d.\n", coqBool(sf), coqBool(sfirst), spawns)
+	wf, whold := sourceWriterShape()
+	fmt.Println("(* (*dynamicSourceWriter).Write: sourceConnMu.RLock still held while the forwarder's Write runs *)")
+	fmt.Printf("Definition SourceWriterShapeFound : bool := %s.\nDefinition SourceWriterHoldsLockAcrossWrite : bool := %s.\n", coqBool(wf), coqBool(whold))
 	fmt.Printf("Definition BatchUpdateThreshold : N := %d%%N.\n", int64(constants.BatchUpdateThreshold))
 }
 
-// instrument prints a copy of tunnel.go in which every statement of (*Tunnel).Close (at any block depth, function
-// literals excluded) is preceded by verifC16Point("Close", <label>), label = cas | load | store | stmt.
+// instrument prints a copy of tunnel.go in which every statement of (*Tunnel).Close and (*Tunnel).Start (at any block
+// depth, function literals excluded) is preceded by verifC16Point("Close"|"Start", <label>),
+// label = cas | load | store | setctx | go | stmt.
 func instrument(path string) {
 	fset := token.NewFileSet()
 	f, err := parser.ParseFile(fset, path, nil, parser.ParseComments)
@@ -224,9 +312,10 @@ func instrument(path string) {
 	if fd == nil {
 		panic("no (*Tunnel).Close in " + path)
 	}
+	fname := "Close"
 	point := func(label string) ast.Stmt {
 		return &ast.ExprStmt{X: &ast.CallExpr{Fun: ast.NewIdent("verifC16Point"),
-			Args: []ast.Expr{&ast.BasicLit{Kind: token.STRING, Value: `"Close"`}, &ast.BasicLit{Kind: token.STRING, Value: fmt.Sprintf("%q", label)}}}}
+			Args: []ast.Expr{&ast.BasicLit{Kind: token.STRING, Value: fmt.Sprintf("%q", fname)}, &ast.BasicLit{Kind: token.STRING, Value: fmt.Sprintf("%q", label)}}}}
 	}
 	var instr func(b *ast.BlockStmt)
 	instr = func(b *ast.BlockStmt) {
@@ -248,6 +337,11 @@ func instrument(path string) {
 		b.List = outl
 	}
 	instr(fd.Body)
+	if sd := findMethod(f, "Tunnel", "Start"); sd != nil {
+		fname = "Start"
+		instr(sd.Body)
+		// a last point before the implicit end is not needed: Start ends with `return nil`, which gets its own point
+	}
 	f.Comments = nil
 	must(printer.Fprint(os.Stdout, fset, f))
 }
